@@ -60,7 +60,7 @@ func (a *Agents) hdrFor(b *Browser, f *FilterRT) {
 }
 
 func (a *Agents) sidOf(b *Browser, f *FilterRT) string {
-	return b.Jar[f.Spec.AppHost][f.Spec.CookieName()]
+	return b.SessionCookie(f.Spec.AppHost, f.Spec.CookieName())
 }
 
 func (a *Agents) noteSID(b *Browser, f *FilterRT) {
